@@ -851,6 +851,16 @@ def generate(ctx):
                                   "ops": [{"kind": "shift", "dst": [pair[0]], "src": [pair[1]]}]}
     for _ in range(ctx.n(150, 2500)):
         yield "selfref", _rand_selfref(rng)
+    if thorough:
+        # exhaustive small space: every chunking of n <= 6, every shift, both directions, owning sources, both schedulers
+        for n in range(2, 7):
+            for lengths in compositions(n):
+                for k in range(1, n):
+                    for pair in (([k, None, None], [None, -k, None]), ([None, -k, None], [k, None, None])):
+                        for src in ("arange", "persist"):
+                            yield "selfref", {"shape": [n], "chunks": [list(lengths)], "src": src,
+                                              "scheduler": "sync" if (k + len(lengths)) % 2 else "threads",
+                                              "ops": [{"kind": "shift", "dst": [pair[0]], "src": [pair[1]]}]}
     for _ in range(ctx.n(250, 4000)):
         yield "chunkfn", _rand_chunkfn(rng)
     for n in range(0, 7):
